@@ -6,7 +6,7 @@
    exhibited on the model (open findings K2, K14; the IndexError K3 is fixed, F11). *)
 From Coq Require Import ZArith List Bool String PArith.
 From Droop Require Import Model.KernelBase Model.Arith Model.Prelude Model.State Model.Prims Model.Election
-  Proofs.CmdMeta Proofs.Decided Proofs.Forward Proofs.ForwardCount.
+  Proofs.CmdMeta Proofs.Decided Proofs.Forward Proofs.ForwardCount Proofs.Terminate.
 Import ListNotations.
 Open Scope Z_scope.
 
@@ -32,6 +32,19 @@ Theorem C01_rule_settles_everyone : forall A cfg r,
   triple (est A) (@crashed A) (TT A) (rule_cmd A cfg r) (NoHop A) (TT A) (TT A).
 Proof. exact rule_decided. Qed.
 Print Assumptions C01_rule_settles_everyone.
+
+(* TERMINATION (first clause), proved for wigm (any options but defeat_batch=zero), wigm-prf, wigm-prf-batch and scotland,
+   under EVERY arithmetic (fixed, integer, guarded with any guard, rational) and every profile with distinct candidate
+   ids: once the fuel exceeds twice the number of candidates the model never answers OutOfFuel -- the count ends, normally
+   or with one of the modelled exceptions.  (Measure: 2 x hopeful + transfer-pending candidates; statuses only move
+   forward, and every pass of the main loop that neither raises nor leaves the loop transfers a surplus or excludes
+   somebody; Proofs/Terminate.v.)  [term_rule cfg r] = r is wigm with cf_batch_zero cfg = false, or wigm-prf, or scotland. *)
+Theorem C01_gregory_counts_terminate_partial : forall A cfg r pr fuel,
+  term_rule cfg r -> NoDup (map pc_cid (pr_cands pr)) ->
+  (2 * List.length (pr_cands pr) < Pos.to_nat fuel)%nat ->
+  exists s k, exec (@crashed A) fuel (count_cmd A cfg r) (init_state A cfg pr) = Some (s, k).
+Proof. exact count_terminates. Qed.
+Print Assumptions C01_gregory_counts_terminate_partial.
 
 (* the full statement is FALSE for meek under guarded arithmetic with guard > 0: the model (which agrees with the
    code on this input, corpus K2) ends in a ZeroDivisionError.  5 candidates, 4 seats, ballots "1: 3 1 5", "5: 5". *)
